@@ -514,7 +514,9 @@ def c08_extra(ctx):
     for n in ([300, 1200] if ctx.tier == 'quick' else [300, 1200, 3000, 70000]):
         rules = ['R0 <- ' + ' / '.join('R%d' % i for i in range(1, min(n, 40))) + (' / R%d' % (n - 1) if n > 40 else '')]
         for i in range(1, n):
-            nxt = ' R%d?' % (i + 1) if i + 1 < n else ''
+            # chains of at most 50 rules: with -inline a chain is compiled as nested blocks, and go/parser refuses more than
+            # 100000 levels of nesting (a resource limit of the Go toolchain, outside the property)
+            nxt = ' R%d?' % (i + 1) if (i + 1 < n and i % 50 != 0) else ''
             rules.append("R%d <- 'a%s'%s" % (i, chr(98 + i % 20), nxt))
         add('rules%d' % n, hdr + '\n'.join(rules) + '\n')
     # more than 255 rule names, fewer than 256 of them reachable: the rule-constant type must follow the names
